@@ -508,6 +508,82 @@ def inst_dask_int_values(L, xblocks):
                     unit="chunk.slice_with_int_dask_array + slice_with_int_dask_array_aggregate", api_replay=api, cost=4)
 
 
+def inst_unknown_axis_chain():
+    """x of chunks ((c0, c1), (nan, nan)) -- what x[:, lazy_mask] looks like -- indexed twice along the known axis,
+    y[a:][b:]: the fused index must leave the unknown-size axis alone (a full slice: nothing else can be planned there), and
+    the result advertises the same two blocks of unknown size along it"""
+    def body(E):
+        import math
+
+        import dask_array.io._from_array as FAm
+        from symx.sarr import leaf
+
+        from . import catalog
+
+        w = catalog.W(E)
+        c = tuple(E.int(f"c{i}", 1) for i in range(2))
+        nan = float("nan")
+        chunks = (c, (nan, nan))
+        node = w.space.make(FAm.FromArray, leaf("X", (sum(c), 1)), chunks, _symx_attrs=dict(_meta=np.empty((0, 0)), chunks=chunks, _name="x"))
+        # (an inert barrier on top, standing for the boolean-index node, which takes no slice into itself either)
+        import dask_array._expr as EXm
+
+        node = w.space.make(EXm.ChunksFreeze, node, chunks)
+        coll = w.fn(catalog.NC, "new_collection")(node)
+        a, b = E.int("a", 0), E.int("b", 0)
+        from symx import core
+
+        y = coll[E.slice(a, None, None)][E.slice(b, None, None)]
+        E.ensure("advertises-two-unknown-blocks", len(y.chunks[1]) == 2 and all(math.isnan(v) for v in y.chunks[1]))
+        try:
+            s = y.expr.simplify()
+            sc = s.chunks
+        except core.Unsupported as ex:
+            if "non-finite" not in str(ex):
+                raise
+            # the planner did arithmetic with the unknown (nan) sizes and the symbolic bounds: it planned the unknown axis
+            E.assume(AND(a >= 1, b >= 1, a + b < sum(c)))  # (x[0:] is x itself: nothing is fused)
+            E.ensure("no-arithmetic-on-the-unknown-axis", False)
+            return
+        E.ensure("simplified-keeps-two-unknown-blocks", len(sc[1]) == 2 and all(math.isnan(v) for v in sc[1]))
+        import builtins
+
+        from .common import _walk
+
+        for n in _walk(s):
+            real = builtins.type(n).__dict__.get("_symx_real", builtins.type(n))
+            if real.__name__ == "SliceSlicesIntegers":
+                ix = tuple(n.index) + (slice(None),) * (2 - len(n.index))
+                full = ix[1].start is None and ix[1].stop is None and ix[1].step is None
+                E.ensure("unknown-axis-keeps-the-full-slice", full)
+
+    def api(values):
+        import dask
+        import dask_array as da
+
+        cs = (values["c0"], values["c1"])
+        a, b = values["a"], values["b"]
+        if sum(cs) > 3000:
+            return dict(ok=False, detail="outside API replay range")
+        A = np.arange(sum(cs) * 4).reshape(sum(cs), 4)
+        x = da.from_array(A, chunks=(cs, (2, 2)))
+        m = np.array([True, False, True, True])
+        want = A[:, m][a:][b:]
+        bad = []
+        for opt in (True, False):
+            with dask.config.set({"array.optimize-graph": opt}):
+                try:
+                    got = x[:, da.from_array(m, chunks=2)][a:][b:].compute(scheduler="sync")
+                    if got.shape != want.shape or not np.array_equal(got, want):
+                        bad.append(f"optimize-graph={opt}: shape {got.shape} instead of {want.shape}")
+                except Exception as e:
+                    bad.append(f"optimize-graph={opt}: {type(e).__name__}")
+        return dict(ok=not bad, detail=f"x[:, lazy_mask][{a}:][{b}:], row chunks {cs}: {bad}")
+
+    return Instance("chained_slices_beside_an_unknown_size_axis", body, {}, unit="SliceSlicesIntegers._simplify_down (fusion) + chunks",
+                    api_replay=api)
+
+
 def inst_refusal(kind):
     """index forms the implementation does not support must raise, not return data: an integer dask array next to a list /
     NumPy array index on another axis, or two list indices (x's chunk sizes symbolic)"""
@@ -598,6 +674,7 @@ def instances(tier):
     out.extend(_program_instances(tier))
     for kind in ("dask-int+list", "dask-int+ndarray", "list+list"):
         out.append(inst_refusal(kind))
+    out.append(inst_unknown_axis_chain())
     out.append(inst_dask_int_values(1, 2))
     out.append(inst_dask_int_values(2, 2))
     if not q:
